@@ -2,6 +2,8 @@ SPECIFICATION Spec
 CONSTANTS
   MaxDepth = 2
   MaxDefects = 1
+  MaxRenames = 1
+  MaxWithRename = 1
   Spares = {"none", "twin"}
   Embeds = {"none"}
 INVARIANT NeverValid
